@@ -71,8 +71,15 @@ impl ProcOut {
 }
 
 pub fn run_proc(prog: &str, args: &[String], stdin: Option<&[u8]>, env: &[(String, String)], cwd: Option<&Path>, timeout: Duration) -> std::io::Result<ProcOut> {
+    run_proc_env(prog, args, stdin, env, cwd, timeout, false)
+}
+
+pub fn run_proc_env(prog: &str, args: &[String], stdin: Option<&[u8]>, env: &[(String, String)], cwd: Option<&Path>, timeout: Duration, clear_env: bool) -> std::io::Result<ProcOut> {
     use std::os::unix::process::ExitStatusExt;
     let mut cmd = Command::new(prog);
+    if clear_env {
+        cmd.env_clear();
+    }
     cmd.args(args).stdin(if stdin.is_some() { Stdio::piped() } else { Stdio::null() }).stdout(Stdio::piped()).stderr(Stdio::piped());
     cmd.env("RUST_BACKTRACE", "0");
     for (k, v) in env {
